@@ -186,6 +186,33 @@ def panic_grid(seed=0):
     return cases
 
 
+def confirm_astro_jd(rep, results):
+    """A Julian Day on which the symbolic Astro::new panics -> the public call that evaluates the ephemeris exactly there:
+    date = round(jd - 1721424.5), gmt = 24 (date - (jd - 1721424.5)) in [-12,12]; the neighbouring dates reach it through the 3-day triple."""
+    cands = [c for x in results for c in x["cands"] if c.get("astro_jd") and c.get("inputs", {}).get("jd") is not None]
+    hit = False
+    for c in cands[:6]:
+        x = float(c["inputs"]["jd"]) - 1721424.5
+        for o in (round(x), round(x) + (1 if x >= round(x) else -1)):
+            g = 24.0 * (o - x)
+            if not (-12.0 <= g <= 12.0) or not (1 <= o <= 3652059):
+                continue
+            for dd in (0, -1, 1):
+                d = datetime.date.fromordinal(int(o) + dd).isoformat()
+                case = api_case(30.0, 31.0, g, d, "Isna", "None", "SpecialRounding")
+                r = replay.run([case])[0]
+                if "times" not in r:
+                    rep.violation("astro-panic", "prayer_times_dt(%s, gmt %s) panics inside the ephemeris (Julian Day %r): %s"
+                                  % (d, g, c["inputs"]["jd"], r.get("panic") or r), case, r)
+                    hit = True
+                    break
+            if hit:
+                break
+        if hit:
+            break
+    return hit
+
+
 def run_panic_grid(rep, key_hint="interval-unwrap"):
     cases = panic_grid()
     outs = replay.run(cases)
@@ -360,6 +387,10 @@ def imsaak_grid(rep):
                 add(("interval", iv), lat, lon, gmt, date, method, "None", {"intervals": {"Imsaak": iv}})
                 add(("extreme", iv), lat, lon, gmt, date, method, "SeventhOfNightFajrIshaAlways", {"intervals": {"Imsaak": iv}})
             add(("extreme", 0.0), lat, lon, gmt, date, method, "SeventhOfNightFajrIshaAlways", {})
+            # a Fajr minute offset moves Fajr and Imsaak alike, also on the extreme branch (C12: Imsaak follows Fajr's offset)
+            add(("extreme", 0.0), lat, lon, gmt, date, method, "SeventhOfNightFajrIshaAlways", {"minutes": {"Fajr": -45.0}})
+            add(("extreme", 10.0), lat, lon, gmt, date, method, "SeventhOfNightFajrIshaAlways", {"intervals": {"Imsaak": 10.0}, "minutes": {"Fajr": 30.0}})
+            add(("interval", 10.0), lat, lon, gmt, date, method, "None", {"intervals": {"Imsaak": 10.0}, "minutes": {"Fajr": -20.0}})
     # the band where Fajr still exists but the Sun does not reach the Imsaak altitude (policy None): Imsaak must be Invalid there, and
     # just inside it must be Fajr at the summed angle; the band is found by bisecting the latitude where the Fajr-angle event vanishes
     for (sign, lon, gmt, date, method, aF) in ((1, -122.3, -8.0, "2023-06-21", "Shafi", 18.0), (-1, 170.0, 12.0, "2023-12-22", "Isna", 15.0),
@@ -388,6 +419,9 @@ def imsaak_grid(rep):
             found.setdefault("imsaak-panic", []).append(("prayer_times_dt panics: %s" % r.get("panic"), c, r))
             continue
         ims, fj = r["times"]["Imsaak"], r["times"]["Fajr"]
+        if c["params"]["ext"] == "None" and any(v is not None and v["extreme"] for v in r["times"].values()):
+            found.setdefault("none-policy-flag", []).append(("a time is flagged extreme although no extreme-latitude policy is active: %s" %
+                                                             {k: v for k, v in r["times"].items() if v and v["extreme"]}, c, r))
         if tag[0] == "angle":
             want = ref.get((c["lat"], c["date"], c["params"]["method"], tag[2]))
             if want is not None and want[0] is None and ims is not None and c["params"]["ext"] == "None":
@@ -485,7 +519,8 @@ def purity_native(rep):
             q = copy.deepcopy(p)
             q["params"][k] = v
             out.append(q)
-        for k, v in (("elev", 800.0), ("weather", {"p": 900.0, "t": 30.0}), ("lon", p["lon"] + 0.5), ("lat", p["lat"] - 0.5)):
+        for k, v in (("elev", 800.0), ("weather", {"p": 900.0, "t": 30.0}), ("lon", p["lon"] + 0.5), ("lat", p["lat"] - 0.5),
+                     ("gmt", p["gmt"] + 0.02), ("gmt", p["gmt"] - 0.0125), ("gmt", p["gmt"] - 1.0)):
             q = copy.deepcopy(p)
             q[k] = v
             out.append(q)
@@ -497,14 +532,18 @@ def purity_native(rep):
             idx.append((i, len(seq) - 1, v))
     outs = replay.run(seq)
     for i, j, v in idx:
-        if outs[j].get("times") != alone[i].get("times"):
-            p = probes[i]
-            diff = [k for k in ("round", "minutes", "intervals", "angles", "asr", "ext", "method") if v["params"].get(k) != p["params"].get(k)] + \
-                   [k for k in ("elev", "weather", "lon", "lat") if v.get(k) != p.get(k)]
-            rep.violation("hidden-state", "prayer_times_dt(%s, lat %s, gmt %s) returns a different result when the previous call in the same process "
-                          "was for the same place and date with a different %s" % (p["date"], p["lat"], p["gmt"], "/".join(diff)), [v, p],
-                          {"alone": alone[i], "after_variant_call": outs[j]})
-            return True
+        p = probes[i]
+        diff = [k for k in ("round", "minutes", "intervals", "angles", "asr", "ext", "method") if v["params"].get(k) != p["params"].get(k)] + \
+               [k for k in ("elev", "weather", "lon", "lat", "gmt") if v.get(k) != p.get(k)]
+        # both calls of the pair are judged against a fresh process: the variant itself may be the one served from stale state
+        for who, got, fresh, pre in (("second", outs[j], alone[i], [v, p]), ("first", outs[j - 1], None, seq[max(0, j - 3):j])):
+            if fresh is None:
+                fresh = replay.run([v])[0]
+            if got.get("times") != fresh.get("times"):
+                rep.violation("hidden-state", "prayer_times_dt(%s, lat %s, gmt %s) returns a different result when earlier calls in the same process "
+                              "were for the same place and date with a different %s" % (p["date"], p["lat"], (p if who == "second" else v)["gmt"], "/".join(diff)),
+                              pre, {"alone": fresh, "after_variant_call": got})
+                return True
     rep.assumptions.append("history independence of prayer_times_dt checked natively on %d probe calls interleaved with %d calls for other places/offsets "
                            "and %d same-place-and-date calls differing in one argument" % (len(probes), len(noise), len(idx)))
     return False
